@@ -13,7 +13,9 @@ EXTENDS ACV, Json, IOUtils
 
 Tr == ndJsonDeserialize(IOEnv.ACV_TRACE)
 
-VARIABLE l
+VARIABLES l,    \* position in the trace
+          rep   \* unlogged: the report each (profile, doc) key denotes, bound by its first observation
+NoRep == [k \in {} |-> ""]
 
 P == "p1"
 C == "c1"
@@ -40,6 +42,7 @@ ResetState ==
   /\ tmp' = [p \in Procs |-> 0]
   /\ names' = [p \in Procs |-> <<>>]
   /\ ret' = [p \in Procs |-> NoRet]
+  /\ rep' = NoRep
 
 TraceInit ==
 
@@ -56,9 +59,11 @@ TraceInit ==
   /\ names = [p \in Procs |-> <<>>]
   /\ ret = [p \in Procs |-> NoRet]
   /\ l = 1
+  /\ rep = NoRep
   /\ TLCSet(2, {})
 
 IsEvent(e) == l <= Len(Tr) /\ Tr[l].e = e /\ l' = l + 1
+KeepRep == UNCHANGED rep
 
 ClassMatches(logged, actual) == logged = "unknown" \/ logged = actual
 
@@ -71,6 +76,7 @@ TraceCall ==
        /\ t.entry = "validateCompiled" =>
              \E hd \in handles : hd.id = h /\ hd.prof = prof
        /\ DoCall(P, t.entry, prof, d, IF t.hasChan THEN C ELSE NoChan, "default", h)
+  /\ KeepRep
 
 \* one received event = one Start or Done step of the spec, and it must be
 \* the event the spec emits at that step
@@ -79,18 +85,19 @@ TraceEv ==
   /\ call[P].chan = C
   /\ \/ StartStage(P) \/ FinishStage(P) \/ FailAtDone(P)
   /\ ev'[C] = Append(ev[C], EvOfType(Tr[l].t))
+  /\ KeepRep
 
 \* without a channel the stage steps are not observable: they are silent
 SilentStage ==
   /\ l <= Len(Tr) /\ Tr[l].e = "ret"
   /\ call[P].chan = NoChan
   /\ \/ StartStage(P) \/ FinishStage(P) \/ FailAtDone(P)
-  /\ UNCHANGED l
+  /\ UNCHANGED <<l, rep>>
 
 Silent ==
   /\ l <= Len(Tr) /\ Tr[l].e = "ret"
   /\ \/ FailMid(P) \/ Close(P)
-  /\ UNCHANGED l
+  /\ UNCHANGED <<l, rep>>
 
 TraceRet ==
   /\ IsEvent("ret")
@@ -100,7 +107,27 @@ TraceRet ==
      /\ call[P].chan # NoChan => (closes[C] = 1) = t.closed
      /\ t.kind = "report" /\ call[P].doc \in DOMAIN DClass /\ DClass[call[P].doc] = "okNoNodes"
            => t.conforms = "true"
+     \* C09: a report is a function of (profile, doc, configuration) only -- whichever entry
+     \* point, handle and history produced it.  The first observation binds the value.
+     /\ IF t.kind = "report" /\ t.key # ""
+          THEN IF t.key \in DOMAIN rep
+                 THEN rep[t.key] = t.sha /\ UNCHANGED rep
+                 ELSE rep' = [k \in DOMAIN rep \cup {t.key} |-> IF k = t.key THEN t.sha ELSE rep[k]]
+          ELSE UNCHANGED rep
   /\ Return(P)
+
+\* C10: the values handed out by the shared counter since the last reset, in
+\* the order the hook logged them.  They are explainable by the atomic Genvar
+\* action of the spec iff some ordering of them is 1, 2, ..., n -- i.e. iff
+\* they are pairwise distinct and cover 1..n (a lost update shows as a
+\* duplicate, a torn one as a gap).
+TraceGenvars ==
+  /\ IsEvent("genvars")
+  /\ pc[P] = "idle"
+  /\ LET vals == Tr[l].vals IN
+       /\ \A i, j \in 1..Len(vals) : i # j => vals[i] # vals[j]
+       /\ {vals[i] : i \in 1..Len(vals)} = 1..Len(vals)
+  /\ UNCHANGED <<vars, rep>>
 
 TraceEnd ==
   /\ IsEvent("end")
@@ -117,9 +144,10 @@ TraceGiveUp ==
   /\ l' = Tr[l].nx
   /\ ResetState
 
-TraceNext == TraceCall \/ TraceEv \/ SilentStage \/ Silent \/ TraceRet \/ TraceEnd \/ TraceGiveUp
+TraceNext == TraceCall \/ TraceEv \/ SilentStage \/ Silent \/ TraceRet \/ TraceGenvars \/ TraceEnd
+               \/ TraceGiveUp
 
-TraceSpec == TraceInit /\ [][TraceNext]_<<vars, l>>
+TraceSpec == TraceInit /\ [][TraceNext]_<<vars, l, rep>>
 
 AllIds == {Tr[i].id : i \in {j \in 1..Len(Tr) : Tr[j].e = "end"}}
 
